@@ -692,7 +692,7 @@ impl<'de, N: Unsigned + Clone> Deserialize<'de> for Bitfield<Fixed<N>> {
 #[cfg(feature = "arbitrary")]
 impl<N: 'static + Unsigned> arbitrary::Arbitrary<'_> for Bitfield<Fixed<N>> {
     fn arbitrary(u: &mut arbitrary::Unstructured<'_>) -> arbitrary::Result<Self> {
-        let size = N::to_usize();
+        let size = bytes_for_bit_len(N::to_usize());
         let mut vec = smallvec![0u8; size];
         u.fill_buffer(&mut vec)?;
         Self::from_bytes(vec).map_err(|_| arbitrary::Error::IncorrectFormat)
